@@ -1,0 +1,29 @@
+//go:build verif
+
+package regulator
+
+// Read-only snapshot of the regulator's bookkeeping, for verification harnesses only.
+type VerifSnapshot struct {
+	PlayerCount  int
+	TableCount   int
+	Status       int
+	WaitingQueue []string
+	Tables       []Table
+}
+
+// VerifSnap returns a copy of the internal state of a regulator created by NewRegulator.
+func VerifSnap(r Regulator) VerifSnapshot {
+	rg := r.(*regulator)
+	rg.mu.RLock()
+	defer rg.mu.RUnlock()
+	s := VerifSnapshot{
+		PlayerCount:  rg.playerCount,
+		TableCount:   rg.tableCount,
+		Status:       int(rg.status),
+		WaitingQueue: append([]string{}, rg.waitingQueue...),
+	}
+	for _, t := range rg.tables {
+		s.Tables = append(s.Tables, *t)
+	}
+	return s
+}
